@@ -303,8 +303,9 @@ def autolink_cp(c, mailto):
     """what AutoLink.pattern can deliver: no space, '<', '>'; e-mail targets use the address alphabet only"""
     if c == 32 or c == 60 or c == 62:
         return False
-    if mailto:
-        return cp_in(c, ADDR)
+    if mailto:     # the address alphabet of AutoLink.pattern, as code-point ranges
+        return (c == 33 or 35 <= c <= 39 or 42 <= c <= 43 or 45 <= c <= 57 or c == 61 or 63 <= c <= 90
+                or 94 <= c <= 126)
     return cp_ok(c)
 
 
@@ -324,12 +325,12 @@ def h2_autolink(c1: int, c2: int, c3: int, mailto: bool, dq: bool, sq: bool) -> 
     return wf_html(r.render(tok))
 
 
-@lemma('H2.code', 'C08', quick=holes(['language', 'content'], 2), thorough=holes(['language', 'content'], 3), timeout=400,
+@lemma('H2.code', 'C08', quick=by('fenced', [False, True], holes(['language', 'content'], 2)), thorough=by('fenced', [False, True], holes(['language', 'content'], 3)), timeout=900,
        stubs=['tokens built directly'],
        covers=['html_renderer.py:HtmlRenderer.render_inline_code', 'html_renderer.py:HtmlRenderer.render_block_code'])
 def h2_code(c1: int, c2: int, c3: int, fenced: bool, dq: bool, sq: bool) -> bool:
     """
-    pre: all_ok(cp_ok, P('k'), c1, c2, c3)
+    pre: all_ok(cp_ok, P('k'), c1, c2, c3) and fixed(fenced, 'fenced')
     post: _
     """
     r = _renderer(dq, sq)
@@ -374,7 +375,7 @@ def digit_cp(c):
     return 48 <= c <= 57
 
 
-@lemma('H2.blocks', 'C08', quick=[{'kind': k} for k in range(6)], timeout=300, stubs=['tokens built directly', 'RenderedInt for List.start'],
+@lemma('H2.blocks', 'C08', quick=[{'kind': k} for k in (0, 1, 3, 4, 5)] + [{'kind': 2, 'ordered': False}, {'kind': 2, 'ordered': True}], timeout=400, stubs=['tokens built directly', 'RenderedInt for List.start'],
        covers=['html_renderer.py:HtmlRenderer.render_heading', 'html_renderer.py:HtmlRenderer.render_quote',
                'html_renderer.py:HtmlRenderer.render_paragraph', 'html_renderer.py:HtmlRenderer.render_list',
                'html_renderer.py:HtmlRenderer.render_list_item', 'html_renderer.py:HtmlRenderer.render_thematic_break',
@@ -384,7 +385,7 @@ def h2_blocks(c1: int, level: int, d1: int, d2: int, is_one: bool, ordered: bool
               align: int, header: bool) -> bool:
     """
     pre: cp_ok(c1) and 1 <= level <= 6 and 0 <= nkids <= 2 and -1 <= align <= 1
-    pre: digit_cp(d1) and digit_cp(d2)
+    pre: digit_cp(d1) and digit_cp(d2) and fixed(ordered, 'ordered')
     post: _
     """
     kind = P('kind')
@@ -410,7 +411,8 @@ def h2_blocks(c1: int, level: int, d1: int, d2: int, is_one: bool, ordered: bool
         if header:
             tok.header = row
     else:
-        item = mk(block_token.ListItem, children=[_para(text), mk(block_token.Quote, children=[_para(text)])][:nkids],
+        both = [_para(text), mk(block_token.Quote, children=[_para(text)])]
+        item = mk(block_token.ListItem, children=[both[i] for i in range(nkids)],
                   loose=loose, leader='-', prepend=2, indentation=0)
         tok = mk(block_token.List, children=[item], loose=loose, start=None)
     out = r.render(tok)
@@ -450,7 +452,7 @@ def h3_sigma(c1: int, c2: int, dq: bool, sq: bool) -> bool:
     return _h3(S(P('k'), c1, c2), dq, sq, P('html'))
 
 
-@lemma('H3.pipeline.alph', 'C08', quick=by('c1', list(H3_ALPH), [{'k': 2, 'html': False, 'dq': False, 'sq': False}, {'k': 2, 'html': True, 'dq': False, 'sq': False}]),
+@lemma('H3.pipeline.alph', 'C08', quick=by('c1', list('<&"[`!'), [{'k': 2, 'html': False, 'dq': False, 'sq': False}]) + by('c1', list('<&'), [{'k': 2, 'html': True, 'dq': False, 'sq': False}]),
        thorough=by('c1', list(H3_ALPH), [{'k': 2, 'html': False}, {'k': 2, 'html': True}, {'k': 3, 'html': False, 'dq': True, 'sq': False, 'timeout': 3000}, {'k': 3, 'html': True, 'dq': False, 'sq': True, 'timeout': 3000}]),
        timeout=600, per_path=60, stubs=['urllib.parse.quote -> contract stub'],
        covers=['block_token.py:Document.__init__', 'html_renderer.py:HtmlRenderer.render_document'],
